@@ -22,6 +22,8 @@ type Conn struct {
 	out      []byte
 	closed   bool // server side called Close
 	peerGone bool // client vanished: writes fail
+	// gate: the handler of this connection is parked at the proposed hook
+	gate chan struct{}
 }
 
 func newConn(name string, inc *incarnation) *Conn {
